@@ -25,7 +25,7 @@ pub static PROP: PropDef = PropDef {
            with WebTransport disabled no WebTransport uni stream is surfaced; never a connection error. non-trivial = CONNECT stream id != 0 or header and payload sharing a chunk; distinct by (scenario, cuts)",
     assumptions: &["the client side is a scripted raw peer (h3-webtransport has no client)", "simulated transport, see C01"],
     tape_len: 200,
-    random_cases: |t| t.pick(20_000, 600_000),
+    random_cases: |t| t.pick(80_000, 3_000_000),
     run_tape,
     exhaustive: Some(exhaustive),
     run_direct: Some(run_direct),
@@ -255,6 +255,9 @@ async fn server_app(net: Net, s: Scn, o: Shared<Obs>, sp: Spawner) {
     }
     // open streams
     let id = session.session_id();
+    // opened streams are kept (not dropped, not leaked) until the case ends
+    let mut keep_bi = Vec::new();
+    let mut keep_uni = Vec::new();
     for (bidi, payload) in s.server_opens.clone() {
         if bidi {
             match session.open_bi(id).await {
@@ -268,7 +271,7 @@ async fn server_app(net: Net, s: Scn, o: Shared<Obs>, sp: Spawner) {
                         }
                     }
                     let _ = std::future::poll_fn(|cx| st.poll_finish(cx)).await;
-                    std::mem::forget(st);
+                    keep_bi.push(st);
                 }
                 Err(e) => o.borrow_mut().errors.push(format!("open_bi: {e}")),
             }
@@ -284,14 +287,14 @@ async fn server_app(net: Net, s: Scn, o: Shared<Obs>, sp: Spawner) {
                         }
                     }
                     let _ = std::future::poll_fn(|cx| st.poll_finish(cx)).await;
-                    std::mem::forget(st);
+                    keep_uni.push(st);
                 }
                 Err(e) => o.borrow_mut().errors.push(format!("open_uni: {e}")),
             }
         }
     }
     std::future::pending::<()>().await;
-    drop(session);
+    drop((session, keep_bi, keep_uni));
 }
 
 fn wt_header(p: &PeerWt) -> Vec<u8> {
